@@ -17,7 +17,7 @@ pub fn property() -> Property {
     Property {
         id: "C17",
         level: "exploration",
-        rule: "Real loopback listeners behind a name mapped with the resolver hook H2. Per address one of: ACCEPT (listener that answers a small HTTP response and counts connections/requests), REFUSE (socket bound but not listening), BLACK-HOLE (listen backlog 0 + parked connection: further SYNs are dropped; verified with a probe connect before each use). Address lists with 0..3 entries per family ([::1]:p_i and 127.0.0.1:p_i), both family orders in the resolver output, EVERY assignment of {accept, refuse, black-hole} (<= 3^6 per shape; 3 198 assignments in thorough, a stride in quick) x deadline class {none, already expired, shorter than the race, longer than the race}; plus single-address and IP-literal fast paths, 'refusal near the deadline' (overall timeout shorter than a race interval, the preferred address refuses, a later one accepts), 'after many abandoned attempts' (5 / 8 earlier connects that each left two attempts pending), a 'second use' scenario (the address that served the first connection to a name stops answering; the next connection is raced afresh), and connect_timeout boundary values (Duration::MAX, 2^63 ms, one year) on lists that contain an acceptor. 'short-connect-timeout': connect_timeout 120/150/300 ms x {no deadline, 8 s} with black-holes before the acceptor (an attempt that gives up on its own timeout does not end the race); 'late-acceptor': the preferred address accepts only the retransmitted SYN (about 1 s), 1-2 black-holes follow, connect_timeout 5 s: the connection is handed out when it is ready (<= 2.6 s). Oracle: reference racing order v6[0], v4[0], v6[1], v4[1], ... (resolver order kept inside a family): result Ok <=> some address accepts (and its attempt starts before the deadline); the connection on which the request arrives is at the FIRST acceptor of that order and no other acceptor sees a request; with k black-holes before it success takes at most k x 200 ms + 450 ms (connect_timeout is 10 s; a timing verdict must reproduce three times); all refuse => ConnectionRefused; no acceptor and a black-hole => Err after about connect_timeout (1 s in those cases). Non-trivial: >= 2 addresses; distinct = hash(assignment, order, deadline class).",
+        rule: "Real loopback listeners behind a name mapped with the resolver hook H2. Per address one of: ACCEPT (listener that answers a small HTTP response and counts connections/requests), REFUSE (socket bound but not listening), BLACK-HOLE (listen backlog 0 + parked connection: further SYNs are dropped; verified with a probe connect before each use). Address lists with 0..3 entries per family ([::1]:p_i and 127.0.0.1:p_i), both family orders in the resolver output, EVERY assignment of {accept, refuse, black-hole} (<= 3^6 per shape; 3 198 assignments in thorough, a stride in quick) x deadline class {none, already expired, shorter than the race, longer than the race}; plus single-address and IP-literal fast paths, 'refusal near the deadline' (overall timeout shorter than a race interval, the preferred address refuses, a later one accepts), 'after many abandoned attempts' (5 / 8 earlier connects that each left two attempts pending), a 'second use' scenario (the address that served the first connection to a name stops answering; the next connection is raced afresh), and connect_timeout boundary values (Duration::MAX, 2^63 ms, one year) on lists that contain an acceptor. 'short-connect-timeout': connect_timeout 120/150/300 ms x {no deadline, 8 s} with black-holes before the acceptor (an attempt that gives up on its own timeout does not end the race); 'late-acceptor': the preferred address accepts only the retransmitted SYN (about 1 s), 1-2 black-holes follow, connect_timeout 5 s: the connection is handed out when it is ready (<= 2.6 s). 'scoped-link-local': a listener on the machine's first link-local IPv6 address, resolved WITH its scope id, alone / before / after refusing addresses: it is dialled as resolved (gray when the machine has no such address). Oracle: reference racing order v6[0], v4[0], v6[1], v4[1], ... (resolver order kept inside a family): result Ok <=> some address accepts (and its attempt starts before the deadline); the connection on which the request arrives is at the FIRST acceptor of that order and no other acceptor sees a request; with k black-holes before it success takes at most k x 200 ms + 450 ms (connect_timeout is 10 s; a timing verdict must reproduce three times); all refuse => ConnectionRefused; no acceptor and a black-hole => Err after about connect_timeout (1 s in those cases). Non-trivial: >= 2 addresses; distinct = hash(assignment, order, deadline class).",
         assumptions: &["Linux loopback semantics (accept-queue overflow drops SYNs); IPv6 loopback available (otherwise the v6 cases are inconclusive)", "timing classes are 200 ms apart; a case on an overloaded machine is retried"],
         min_nontrivial: |t| t.pick(40, 2_000),
         gens,
@@ -83,6 +83,7 @@ fn gens(tier: Tier) -> Vec<Gen> {
         Gen { name: "second-use", count: 4, exhaustive: true, run: run_second_use },
         Gen { name: "unresponsive", count: 24, exhaustive: true, run: run_unresponsive },
         Gen { name: "short-connect-timeout", count: 24, exhaustive: true, run: run_short_connect_timeout },
+        Gen { name: "scoped-link-local", count: 4, exhaustive: true, run: run_scoped_link_local },
         Gen { name: "late-acceptor", count: 3, exhaustive: true, run: run_late_acceptor },
     ]
 }
@@ -99,7 +100,11 @@ struct AcceptListener {
 
 impl AcceptListener {
     fn spawn(v6: bool) -> Option<AcceptListener> {
-        let l = TcpListener::bind(if v6 { "[::1]:0" } else { "127.0.0.1:0" }).ok()?;
+        AcceptListener::spawn_at(if v6 { "[::1]:0" } else { "127.0.0.1:0" }.parse().unwrap())
+    }
+
+    fn spawn_at(bind: SocketAddr) -> Option<AcceptListener> {
+        let l = TcpListener::bind(bind).ok()?;
         let addr = l.local_addr().ok()?;
         l.set_nonblocking(true).ok()?;
         let connections = Arc::new(AtomicUsize::new(0));
@@ -632,6 +637,72 @@ fn run_short_connect_timeout(ctx: &mut Ctx, _rng: &mut Rng, index: u64) {
     }
     ctx.nontrivial(format!("sct{index}").as_bytes());
     ctx.sample(|| json!({"gen": "short-connect-timeout", "v6": format!("{b6:?}"), "v4": format!("{b4:?}"), "connect_timeout_ms": ct, "deadline": format!("{deadline:?}"), "elapsed_ms": out.elapsed.as_millis() as u64}));
+}
+
+/// first link-local IPv6 address of an interface that is up, with its interface index (the scope id)
+fn link_local() -> Option<std::net::SocketAddrV6> {
+    let text = std::fs::read_to_string("/proc/net/if_inet6").ok()?;
+    for line in text.lines() {
+        let f: Vec<&str> = line.split_whitespace().collect();
+        if f.len() >= 6 && f[0].starts_with("fe80") && f[3] == "20" && f[0].len() == 32 {
+            let mut b = [0u8; 16];
+            for i in 0..16 {
+                b[i] = u8::from_str_radix(&f[0][2 * i..2 * i + 2], 16).ok()?;
+            }
+            let idx = u32::from_str_radix(f[1], 16).ok()?;
+            return Some(std::net::SocketAddrV6::new(std::net::Ipv6Addr::from(b), 0, 0, idx));
+        }
+    }
+    None
+}
+
+/// a resolved address is dialled exactly as the resolver gave it: a link-local IPv6 address keeps
+/// its scope id (without it the connect fails with EINVAL although the address accepts)
+fn run_scoped_link_local(ctx: &mut Ctx, _rng: &mut Rng, index: u64) {
+    let ll = match link_local() {
+        Some(a) => a,
+        None => {
+            ctx.count("no_link_local_address_on_this_machine", 1);
+            ctx.gray();
+            return;
+        }
+    };
+    let acc = match AcceptListener::spawn_at(SocketAddr::V6(ll)) {
+        Some(a) => a,
+        None => {
+            ctx.count("no_link_local_address_on_this_machine", 1);
+            ctx.gray();
+            return;
+        }
+    };
+    let refuse4 = match RefusePort::new(false) {
+        Some(r) => r,
+        None => return ctx.inconclusive("could not set up an IPv4 loopback peer"),
+    };
+    let refuse6 = match RefusePort::new(true) {
+        Some(r) => r,
+        None => return ctx.inconclusive("could not set up an IPv6 loopback peer"),
+    };
+    // the listener's address carries the scope id; the lists: alone (fast path), before / after refusing addresses
+    let scoped = acc.addr;
+    let addrs: Vec<SocketAddr> = match index % 4 {
+        0 => vec![scoped],
+        1 => vec![scoped, refuse4.addr],
+        2 => vec![refuse4.addr, refuse6.addr, scoped],
+        _ => vec![refuse6.addr, scoped],
+    };
+    let host = format!("scoped{}.test", HOST_SEQ.fetch_add(1, Ordering::Relaxed));
+    set_resolver_override(&host, Some(addrs.clone()));
+    let t0 = Instant::now();
+    let res = attohttpc::get(format!("http://{host}:9/c17")).connect_timeout(Duration::from_secs(3)).read_timeout(Duration::from_secs(5)).send().map(|r| r.status().as_u16()).map_err(|e| format!("{e:?}"));
+    let elapsed = t0.elapsed();
+    set_resolver_override(&host, None);
+    let reqs = acc.requests.load(Ordering::SeqCst);
+    ctx.count("scoped_link_local_cases", 1);
+    if res != Ok(200) || reqs != 1 {
+        ctx.violation("scoped-address-not-dialled-as-resolved", format!("resolved addresses {addrs:?} (the link-local one accepts, the others refuse): {res:?} after {elapsed:?}; the acceptor served {reqs} request(s)"));
+    }
+    ctx.nontrivial(format!("scoped{index}").as_bytes());
 }
 
 /// an address that drops the first SYN and accepts the retransmitted one (about 1 s later)
